@@ -5,6 +5,7 @@ From InvokeVerif Require Import Spec.C01Spec Proofs.C01_steps Proofs.C01_occ Pro
      Proofs.C01_final Proofs.C18_placement Proofs.C18_program Proofs.C18_values
      Proofs.C18_program_values Proofs.C18_overrides.
 From InvokeVerif Require Proofs.C01_widest2 Proofs.C18_wide.
+From InvokeVerif Require Import Proofs.C18_remainder.
 From InvokeVerif Require Model.ProgramTypes Model.ProgramModel.
 
 (** Remainder (full): everything after the first bare "--" is the remainder,
@@ -27,6 +28,93 @@ Theorem C18_program_remainder : forall core tasks body rem r,
   no_ddash body = true ->
   program_parse core tasks (body ++ "--" :: rem) = Ok r -> pg_remainder r = join " " rem.
 Proof. exact program_remainder. Qed.
+
+(** The same through BOTH passes of Program (full): for every command line
+    [body ++ "--" :: rem] with [body] free of "--" -- whatever the last token of
+    [body] is (a bare optional-value flag --list / -l / --help / -h, a cluster
+    ending in one, a flag still waiting for its value, nothing at all: [body]
+    may be empty) and whatever [rem] looks like (task names, flags, further
+    "--") -- the parse is that of [body] alone: same Program.args values, same
+    tokens handed to the task pass, same task calls, same error if any; the
+    remainder is [rem] joined by single spaces, and [body] alone has none. *)
+Theorem C18_program_remainder_influences_nothing : forall core tasks body rem,
+  no_ddash body = true ->
+  match program_parse core tasks (body ++ "--" :: rem), program_parse core tasks body with
+  | Ok r1, Ok r2 => pg_core r1 = pg_core r2 /\ pg_unparsed r1 = pg_unparsed r2 /\
+                    pg_tasks r1 = pg_tasks r2 /\
+                    pg_remainder r1 = join " " rem /\ pg_remainder r2 = ""
+  | Err e1, Err e2 => e1 = e2
+  | _, _ => False
+  end.
+Proof. exact program_remainder_influences_nothing. Qed.
+
+(** ... and for a command line that already contains "--": a further
+    ["--" :: rem] appended to it changes nothing but the remainder. *)
+Theorem C18_program_trailing_remainder_inert : forall core tasks argv rem,
+  match program_parse core tasks (argv ++ "--" :: rem), program_parse core tasks argv with
+  | Ok r1, Ok r2 => pg_core r1 = pg_core r2 /\ pg_unparsed r1 = pg_unparsed r2 /\
+                    pg_tasks r1 = pg_tasks r2
+  | Err e1, Err e2 => e1 = e2
+  | _, _ => False
+  end.
+Proof. exact program_trailing_remainder_inert. Qed.
+
+(** The model satisfies the two remainder clauses of the executable
+    specification (S1: remainder = the tokens after the first "--" joined; S4:
+    the line with the trailing remainder differs from the line without it in
+    [remainder] only) on ALL cases -- every signature set, groups, option,
+    placement and remainder.  (The placement clause S3 is false at full strength:
+    [C18_placement_refuted_*]; S2 is only swept.) *)
+Theorem C18_model_remainder_clauses : forall cs groups opt j rem,
+  match model_program cs (placed_argv groups opt j rem) with
+  | Ok o => s1_remainder (placed_argv groups opt j rem) o
+  | Err _ => true
+  end
+  && s4_remainder_inert rem (model_program cs (placed_argv groups opt j None))
+                            (model_program cs (placed_argv groups opt j rem)) = true.
+Proof. exact model_remainder_clauses. Qed.
+
+(** A bare optional-value core flag right before "--", every spelling (long,
+    short, last letter of a short-flag cluster), the real core context, ANY
+    accepted task set, ANY remainder: the option is True (given without value),
+    nothing reaches the task pass, no task is called, remainder verbatim.
+    [bare_before_ddash tok name] (Proofs/C18_remainder.v) :=
+      forall tasks rem, parser_ok tasks = true ->
+      exists r, program_parse core_ctx tasks (tok :: "--" :: rem) = Ok r /\
+                core_value (pg_core r) name = ABool true /\
+                pg_unparsed r = [] /\ pg_tasks r = [] /\ pg_remainder r = join " " rem. *)
+Theorem C18_bare_optional_before_ddash :
+  bare_before_ddash "--list" "list" /\ bare_before_ddash "-l" "list" /\
+  bare_before_ddash "--help" "help" /\ bare_before_ddash "-h" "help" /\
+  bare_before_ddash "-wl" "list" /\ bare_before_ddash "-eh" "help".
+Proof. exact bare_optional_before_ddash. Qed.
+
+(** A flag that REQUIRES a value directly before "--": the documented error
+    (needed value and was not given one), whatever follows -- "--" is never
+    taken as the value. *)
+Theorem C18_value_flag_before_ddash_is_error : forall tasks rem,
+  program_parse core_ctx tasks ("--hide" :: "--" :: rem) = Err EParse /\
+  program_parse core_ctx tasks ("-f" :: "--" :: rem) = Err EParse /\
+  program_parse core_ctx tasks ("-T" :: "--" :: rem) = Err EParse.
+Proof. exact value_flag_before_ddash_is_error. Qed.
+
+(** Non-vacuity: "-F json -l -- build --list" with a task "a": list-format json,
+    list True, nothing parsed as a task, remainder "build --list"; the same
+    line without the remainder gives the same core values. *)
+Example C18_remainder_inhabited :
+  no_ddash ["-F"; "json"; "-l"] = true /\
+  exists g g0,
+    model_program [task_a] (["-F"; "json"; "-l"] ++ "--" :: ["a"; "--list"]) = Ok g /\
+    model_program [task_a] ["-F"; "json"; "-l"] = Ok g0 /\
+    kw_get "list" (g_core g) = Some (ABool true) /\
+    kw_get "list-format" (g_core g) = Some (AStr "json") /\
+    g_core g = g_core g0 /\ g_tasks g = [] /\ g_unparsed g = [] /\
+    g_remainder g = "a --list" /\ g_remainder g0 = "".
+Proof.
+  split; [reflexivity|]. eexists. eexists.
+  split; [vm_compute; reflexivity|]. split; [vm_compute; reflexivity|].
+  repeat split; vm_compute; reflexivity.
+Qed.
 
 (** Every command line has exactly one such decomposition. *)
 Theorem C18_split_at_first_ddash : forall argv,
